@@ -88,13 +88,26 @@ func runC14(c *core.Ctx) {
 	// ---------- YieldRef
 	{
 		ok, detail := func() (bool, string) {
+			// the receive, the reply and the return may sit in YieldRef itself or in unexported helpers it calls;
+			// values are traced through the helpers' parameters and results
 			var recv *ssa.UnOp
-			core.Instrs(yr, func(ins ssa.Instruction) {
-				if u, isU := ins.(*ssa.UnOp); isU && u.Op == token.ARROW {
-					recv = u
+			for _, f := range core.DeepFind(p, yr, func(ins ssa.Instruction) bool {
+				u, isU := ins.(*ssa.UnOp)
+				return isU && u.Op == token.ARROW
+			}) {
+				u := f.Ins.(*ssa.UnOp)
+				if core.FieldKey(u.X) != "CorDef.opCh" {
+					continue
 				}
-			})
-			if recv == nil || core.FieldKey(recv.X) != "CorDef.opCh" || core.FieldBase(recv.X) != yr.Params[0].Name() {
+				if ld, isLd := core.Unwrap(u.X).(*ssa.UnOp); isLd {
+					if fa, isFA := ld.X.(*ssa.FieldAddr); isFA {
+						if base, st := core.Up(fa.X, f.Stack); len(st) == 0 && base == ssa.Value(yr.Params[0]) {
+							recv = u
+						}
+					}
+				}
+			}
+			if recv == nil {
 				return false, "YieldRef does not receive from its own request channel"
 			}
 			var op ssa.Value = recv
@@ -105,29 +118,48 @@ func runC14(c *core.Ctx) {
 					}
 				}
 			}
-			isOpField := func(v ssa.Value, field string) bool {
-				v = core.Resolve(v)
-				u, isU := v.(*ssa.UnOp)
+			isRecvOp := func(v ssa.Value, stack []*ssa.Call) bool {
+				lv := core.Origins(p, v, stack)
+				if len(lv) == 0 {
+					return false
+				}
+				for _, l := range lv {
+					if core.Resolve(l.Val) != op {
+						return false
+					}
+				}
+				return true
+			}
+			isOpField := func(v ssa.Value, stack []*ssa.Call, field string) bool {
+				r, st := core.Up(v, stack)
+				u, isU := core.Resolve(r).(*ssa.UnOp)
 				if !isU {
 					return false
 				}
 				fa, isFA := u.X.(*ssa.FieldAddr)
-				return isFA && core.FieldKey(fa) == "CorOp."+field && fa.X == op
+				return isFA && core.FieldKey(fa) == "CorOp."+field && isRecvOp(fa.X, st)
 			}
 			// reply wrapper call
-			ws := callsOf(yr, core.FuncName(wrapper))
-			if len(ws) != 1 || len(ws[0].Call.Args) < 2 {
-				return false, fmt.Sprintf("expected one guarded reply (found %d wrapper calls)", len(ws))
+			var w *ssa.Call
+			var wstack []*ssa.Call
+			nW := 0
+			for _, f := range core.DeepFind(p, yr, func(ins ssa.Instruction) bool {
+				call, isC := ins.(*ssa.Call)
+				return isC && core.Callee(&call.Call) == wrapper
+			}) {
+				w, wstack, nW = f.Ins.(*ssa.Call), f.Stack, nW+1
 			}
-			w := ws[0]
+			if nW != 1 || len(w.Call.Args) < 2 {
+				return false, fmt.Sprintf("expected one guarded reply (found %d wrapper calls)", nW)
+			}
 			fv := core.ResolveFuncValue(p, w.Call.Args[1])
 			if fv == nil {
 				return false, "the function handed to the lock wrapper is not a function value built here"
 			}
-			if !isOpField(w.Call.Args[0], "cor") {
+			if !isOpField(w.Call.Args[0], wstack, "cor") {
 				return false, "the reply is sent under the lock of " + core.Path(w.Call.Args[0]) + ", not of the requester carried by the received request (op.cor): wrong lock → sends race with that coroutine's close, and a full request channel deadlocks"
 			}
-			cl := fv.Fn
+			cl, outer := guardedBody(p, fv)
 			var send *ssa.Send
 			core.Instrs(cl, func(ins ssa.Instruction) {
 				if s, isS := ins.(*ssa.Send); isS {
@@ -142,53 +174,70 @@ func runC14(c *core.Ctx) {
 			var owner ssa.Value
 			if ld, isLd := core.Unwrap(send.Chan).(*ssa.UnOp); isLd {
 				if fa, isFA := ld.X.(*ssa.FieldAddr); isFA {
-					owner = fv.Outer(fa.X)
+					owner = outer(fa.X)
 				}
 			}
-			if owner == nil || !isOpField(owner, "cor") {
+			if owner == nil || !isOpField(owner, wstack, "cor") {
 				return false, "the reply goes to the result channel of " + ownerName + ", which is not the requester stored in the received request: the value is routed to the wrong coroutine"
 			}
-			if v := fv.Outer(send.X); v != ssa.Value(yr.Params[1]) {
+			if v, st := core.Up(outer(send.X), wstack); len(st) != 0 || v != ssa.Value(yr.Params[1]) {
 				return false, "the value sent back is not YieldRef's argument"
 			}
 			// exactly once where a requester is present
 			present := false
-			for _, m := range core.EdgeCmps(w.Block()) {
-				if m.Op == token.NEQ && core.IsNilConst(m.Y) && isOpField(m.X, "cor") {
-					present = true
-				}
-				// any nil test of the received request itself on the way must say "not nil"
-				if m.Op == token.EQL && core.IsNilConst(m.Y) && core.Resolve(m.X) == op {
-					return false, "the reply is sent only when the received request is nil: real requests are never answered (their YieldFrom hangs) and the nil request is dereferenced"
+			type frameBlock struct {
+				b  *ssa.BasicBlock
+				st []*ssa.Call
+			}
+			fbs := []frameBlock{{w.Block(), wstack}}
+			for i, sc := range wstack {
+				fbs = append(fbs, frameBlock{sc.Block(), wstack[:i]})
+			}
+			for _, fb := range fbs {
+				for _, m := range core.EdgeCmps(fb.b) {
+					if m.Op == token.NEQ && core.IsNilConst(m.Y) && isOpField(m.X, fb.st, "cor") {
+						present = true
+					}
+					// any nil test of the received request itself on the way must say "not nil"
+					if m.Op == token.EQL && core.IsNilConst(m.Y) && isRecvOp(m.X, fb.st) {
+						return false, "the reply is sent only when the received request is nil: real requests are never answered (their YieldFrom hangs) and the nil request is dereferenced"
+					}
 				}
 			}
-			min, max := core.PathCountFrom(w.Block(), nil, func(ins ssa.Instruction) int {
-				if ins == ssa.Instruction(w) {
-					return 1
+			// at most once: in every frame of the chain the call towards the reply is passed at most once per path
+			max := 1
+			for _, ci := range append(append([]*ssa.Call{}, wstack...), w) {
+				tgt := ssa.Instruction(ci)
+				if _, mx := core.PathCount(ci.Parent(), func(ins ssa.Instruction) int {
+					if ins == tgt {
+						return 1
+					}
+					return 0
+				}, nil); mx != 1 {
+					max = mx
 				}
-				return 0
-			}, nil)
-			if !present || min != 1 || max != 1 {
+			}
+			if !present || max != 1 {
 				return false, "the reply is not sent exactly once on the path where the request carries a requester"
 			}
 			// return value
 			okRet := true
-			core.Instrs(yr, func(ins ssa.Instruction) {
-				if r, isR := ins.(*ssa.Return); isR && r.Block() != yr.Recover {
-					v := core.RetVals(r)[0]
-					if isOpField(v, "val") {
-						return
+			for _, rc := range core.ReturnCases(yr) {
+				if isOpField(rc.Vals[0], nil, "val") {
+					continue
+				}
+				// the early return on IsDone returns the zero value
+				closed := false
+				for _, cnd := range rc.Facts {
+					n := core.Normalize(cnd)
+					if n.True && flagRead(p, n.V, yr.Params[0].Name(), "isClosed", 0) {
+						closed = true
 					}
-					// the early return on IsDone returns the zero value
-					for _, cnd := range core.EdgeFacts(r.Block()) {
-						n := core.Normalize(cnd)
-						if n.True && flagRead(p, n.V, yr.Params[0].Name(), "isClosed", 0) {
-							return
-						}
-					}
+				}
+				if !closed {
 					okRet = false
 				}
-			})
+			}
 			if !okRet {
 				return false, "YieldRef does not return the value carried by the received request"
 			}
@@ -244,17 +293,29 @@ func runC14(c *core.Ctx) {
 	{
 		ok, detail := func() (bool, string) {
 			ws := callsOf(rc, core.FuncName(wrapper))
-			if len(ws) != 1 || len(rc.AnonFuncs) != 1 || core.Resolve(ws[0].Call.Args[0]) != ssa.Value(rc.Params[0]) {
+			if len(ws) != 1 || len(ws[0].Call.Args) < 2 || core.Resolve(ws[0].Call.Args[0]) != ssa.Value(rc.Params[0]) {
 				return false, "receive does not enqueue under its own lock wrapper exactly once"
 			}
-			cl := rc.AnonFuncs[0]
+			fv := core.ResolveFuncValue(p, ws[0].Call.Args[1])
+			if fv == nil {
+				return false, "receive does not enqueue under its own lock wrapper exactly once"
+			}
+			cl, outer := guardedBody(p, fv)
 			var send *ssa.Send
 			core.Instrs(cl, func(ins ssa.Instruction) {
 				if s, isS := ins.(*ssa.Send); isS {
 					send = s
 				}
 			})
-			if send == nil || core.FieldKey(send.Chan) != "CorDef.opCh" || capturedBinding(rc, cl, core.FieldBase(send.Chan)) != ssa.Value(rc.Params[0]) {
+			var chOwner ssa.Value
+			if send != nil {
+				if ld, isLd := core.Unwrap(send.Chan).(*ssa.UnOp); isLd {
+					if fa, isFA := ld.X.(*ssa.FieldAddr); isFA {
+						chOwner = outer(fa.X)
+					}
+				}
+			}
+			if send == nil || core.FieldKey(send.Chan) != "CorDef.opCh" || chOwner == nil || core.Resolve(chOwner) != ssa.Value(rc.Params[0]) {
 				return false, "the request is not sent on the receiver's own request channel"
 			}
 			alloc, isA := core.Resolve(send.X).(*ssa.Alloc)
@@ -268,7 +329,10 @@ func runC14(c *core.Ctx) {
 					continue
 				}
 				for _, st := range core.Stores(fa) {
-					v := capturedBinding(rc, cl, core.Path(st.Val))
+					v := outer(st.Val)
+					if v != nil {
+						v = core.Resolve(v)
+					}
 					switch core.FieldName(fa.X.Type(), fa.Field) {
 					case "cor":
 						corOK = v == ssa.Value(rc.Params[1])
@@ -442,4 +506,26 @@ func c14notStarted(p *core.Prog, b *ssa.BasicBlock, base string) bool {
 		}
 	}
 	return false
+}
+
+// guardedBody returns the function that really runs under the lock wrapper for a function value handed to it
+// (the value's own function, or the unexported helper it only forwards to) and a translation of that
+// function's values into the frame that built the function value.
+func guardedBody(p *core.Prog, fv *core.FuncVal) (*ssa.Function, func(ssa.Value) ssa.Value) {
+	cl := fv.Fn
+	thinArg := map[ssa.Value]ssa.Value{}
+	if tgt, tc := core.ThinTarget(p, cl); tgt != nil {
+		for i, prm := range tgt.Params {
+			if i < len(tc.Call.Args) {
+				thinArg[prm] = tc.Call.Args[i]
+			}
+		}
+		cl = tgt
+	}
+	return cl, func(v ssa.Value) ssa.Value {
+		if a, okA := thinArg[core.Resolve(v)]; okA {
+			v = a
+		}
+		return fv.Outer(v)
+	}
 }
